@@ -141,9 +141,12 @@ def run(ctx):
     ctx.extra["assert_sites"] = n_assert
 
     # ------------------------------------------------------------ R2
+    keyreg_fns = []
     for f in fns:
-        if f.relpath not in (PDF, MIX) or f.qualname not in ("_nominal_and_modifiers_from_spec", "_finalize_parameters_specs", "_ChannelSummaryMixin.__init__"):
-            continue
+        if f.relpath in (PDF, MIX) and f.qualname in ("_nominal_and_modifiers_from_spec", "_finalize_parameters_specs", "_ChannelSummaryMixin.__init__"):
+            keyreg_fns.append(f)
+            keyreg_fns.extend(h_ for h_ in repo.helpers_of(f, depth=2) if all(h_.node is not k_.node for k_ in keyreg_fns))  # a registration walk moved into a helper is judged there
+    for f in keyreg_fns:
         g = CFG.build(f.node.body)
         dom = g.dominators()
         pm = A.parent_map(f.node)
@@ -643,7 +646,11 @@ def _overrides_through_the_model(ctx, r6, repo, pyhf_excs):
 def _model_builder_refuses_duplicate_channels(repo):
     """_nominal_and_modifiers_from_spec iterates spec['channels'] and, before registering the channel under its name,
     tests that name for membership in the same table and raises a pyhf exception (dominating the registration)."""
-    f = repo.func(PDF, "_nominal_and_modifiers_from_spec")
+    f0 = repo.func(PDF, "_nominal_and_modifiers_from_spec")
+    return any(_refuses_duplicate_channels_in(repo, f) for f in [f0] + repo.helpers_of(f0, depth=2))
+
+
+def _refuses_duplicate_channels_in(repo, f):
     g = CFG.build(f.node.body)
     dom = g.dominators()
     pm = A.parent_map(f.node)
